@@ -69,7 +69,7 @@ def distinct_check(mon, name, values, viol, max_repeats=0, other=None):
 
 def run(tier, seed):
     mon = Monitor()
-    scale = {"quick": 1, "thorough": 16}[tier]
+    scale = {"quick": 1, "thorough": 64}[tier]
     un, pn = "CENSUS", "CENSUSPW"
     salt0 = bytes(range(32))
     v0 = M.to_le(M.calc_v(un, pn, salt0))
@@ -94,6 +94,7 @@ def run(tier, seed):
                 ("integrity_salt", 4096 * mult // threads if pi == 0 else 1024, {}),
                 ("pin_salt", 4096 * mult // threads if pi == 0 else 1024, {}),
                 ("mc_seed", 4096 * mult // threads if pi == 0 else 1024, {}),
+                ("mixed", 400 * mult if pi == 0 else 400, {"mixseed": 1 + pi}),
                 ("mc_card", 64 * mult if pi == 0 else 64, {"dc": 2, "ch": 8, "cw": 8}),
                 ("mc_card_big", 4 * mult if pi == 0 else 4, {"dc": 4, "ch": 26, "cw": 26}),
                 ("mc_card_mid", 8 * mult if pi == 0 else 8, {"dc": 3, "ch": 10, "cw": 12}),
@@ -116,6 +117,43 @@ def run(tier, seed):
     def flat(pi, src):
         return [bytes.fromhex(x) for t in results[pi].get(src, []) for x in t if x]
 
+    # ---- mixed workload: every value handed out directly, cut into 16-byte blocks, must be new
+    blocks = collections.Counter()
+    pubs = collections.Counter()
+    nmixed = 0
+    first_seen = {}
+    for pi in (0, 1):
+        for t in results[pi].get("mixed", []):
+            for item in t:
+                for part in item.split("/"):
+                    k, _, val = part.partition("=")
+                    if not val:
+                        continue
+                    nmixed += 1
+                    raw = bytes.fromhex(val)
+                    if k in ("B", "A"):
+                        pubs[raw] += 1
+                    else:
+                        for o in range(0, len(raw), 16):
+                            blk = raw[o:o + 16]
+                            blocks[blk] += 1
+                            first_seen.setdefault(blk, k)
+    if nmixed:
+        mon.count("mixed_workload_values", nmixed)
+        mon.count("mixed_workload_16_byte_blocks", sum(blocks.values()))
+        mon.ev(nmixed)
+        rep = [(b, n) for b, n in blocks.items() if n > 1]
+        if rep:
+            b, n = rep[0]
+            viol("mixed:block_repeats", "in a randomly ordered mix of salt / key / challenge draws on one thread %d of %d 16-byte blocks handed out were "
+                 "handed out before (e.g. %s, %d times, first as %s)" % (len(rep), len(blocks), b.hex(), n, first_seen[b]))
+        else:
+            mon.cell(("mixed", "blocks_unique"))
+        rep2 = [(b, n) for b, n in pubs.items() if n > 1]
+        if rep2:
+            viol("mixed:public_key_repeats", "in a mixed workload %d public keys repeated (e.g. %s)" % (len(rep2), rep2[0][0].hex()))
+    else:
+        mon.inconc("the mixed-order workload produced no values")
     # ---- simple sources
     for src, width in (("salt", 32), ("integrity_salt", 16), ("pin_salt", 16), ("mc_seed", 8)):
         a, b = flat(0, src), flat(1, src)
@@ -249,10 +287,11 @@ def run(tier, seed):
     allc = groups.get(("C0", 0), []) + groups.get(("R", 0), []) + groups.get(("C0", 1), []) + groups.get(("R", 1), [])
     if allc:
         distinct_check(mon, "server_challenges_all", allc, viol)
-    if verdict_letters.get("RX") or verdict_letters.get("RY"):
+    if verdict_letters.get("RX") or verdict_letters.get("RY") or verdict_letters.get("RZ"):
         mon.note("census saw unexpected reconnect verdicts %s (C05's business)" % dict(verdict_letters))
     mon.count("refresh_after_accepted_attempt", verdict_letters.get("Ra", 0))
     mon.count("refresh_after_rejected_attempt", verdict_letters.get("Rr", 0))
+    mon.count("refresh_after_attempt_echoing_the_challenge", verdict_letters.get("Re", 0))
     for k in ("B", "A"):
         nm = names[k]
         mon.count("private_key_draws_attributed:%s" % k, attributed[k])
